@@ -457,22 +457,51 @@ theorem removeObject_no_panic (H : Bytes → Str) (st : DState) (u : Str) (m : S
         simp only
         split <;> exact fun h => nomatch h
 
-/-- the only abort of `create_object` is a failing `digest_object` (an `_id` field inside the object, a `#`
-    field of a wrong type): the `expect("cannot_create_revision")` of the code -/
-theorem createObject_no_panic {H : Bytes → Str} {st : DState} {u : Str} {o : JObj} {d : Str}
-    (hd : digestObject H o = .ok d) (m : String) : createObject H st u o ≠ .panic m := by
-  simp only [createObject, hd]
-  generalize (((st.writeObject (Rev.mk1 d) o).treeOf u).getD RevTree.empty).add (Rev.mk1 d) none true = T
-  obtain ⟨t', added⟩ := T
-  exact fun h => nomatch h
+/-- **`create_object` never aborts, whatever object it is given** (since the repair of D26: an `_id` field
+    inside the object - the shape `read` returns - or a `#` field of a wrong type makes `digest_object` fail,
+    and that failure is now returned as an error; before, `expect("cannot_create_revision")` aborted) -/
+theorem createObject_no_panic (H : Bytes → Str) (st : DState) (u : Str) (o : JObj) (m : String) :
+    createObject H st u o ≠ .panic m := by
+  unfold createObject
+  cases hd : digestObject H o with
+  | error e => exact fun h => nomatch h
+  | ok d =>
+    simp only
+    generalize (((st.writeObject (Rev.mk1 d) o).treeOf u).getD RevTree.empty).add (Rev.mk1 d) none true = T
+    obtain ⟨t', added⟩ := T
+    exact fun h => nomatch h
 
-/-- the guarded entry points refuse deep objects with an error, not an abort -/
-theorem createObjectG_no_panic {H : Bytes → Str} {st : DState} {u : Str} {o : JObj} {d : Str}
-    (hd : digestObject H o = .ok d) (m : String) : createObjectG H st u o ≠ .panic m := by
+/-- the guarded entry point refuses deep objects with an error, not an abort -/
+theorem createObjectG_no_panic (H : Bytes → Str) (st : DState) (u : Str) (o : JObj) (m : String) :
+    createObjectG H st u o ≠ .panic m := by
   unfold createObjectG
   split
   · exact fun h => nomatch h
-  · exact createObject_no_panic hd m
+  · exact createObject_no_panic H st u o m
+
+/-- **`update_object` on a plain identifier never aborts, whatever object it is given** (D26: the object with
+    its `_id`, as `read` hands it out, is refused with `identifier_in_object`) -/
+theorem updateObject_plain_never_aborts (H : Bytes → Str) (src : Src) (st : DState) {u : Str}
+    (hu : isArrayDescriptor u = false) (o : JObj) (m : String) : updateObject H src st u o ≠ .panic m := by
+  cases hd : digestObject H o with
+  | ok d => exact updateObject_plain_no_panic hu hd m
+  | error e =>
+    unfold updateObject
+    cases htu : st.treeOf u with
+    | none => simp only [createObject, hd]; exact fun h => nomatch h
+    | some t =>
+      simp only
+      cases hw : t.winner with
+      | none => exact fun h => nomatch h
+      | some w =>
+        simp only [hu, Bool.false_eq_true, if_false, hd]
+        exact fun h => nomatch h
+
+/-- the object as `read` returns it (with its `_id`) is refused with an error by both entry points -/
+example : ∀ m, createObject (fun _ => "h".toList) {} "x".toList [(ID_FIELD, .str "x".toList), (['v'], .num ['1'])] ≠ .panic m :=
+  createObject_no_panic _ _ _ _
+example : (match createObject (fun _ => "h".toList) {} "x".toList [(ID_FIELD, .str "x".toList), (['v'], .num ['1'])] with
+    | .err _ => true | _ => false) = true := by decide
 
 theorem updateG_no_panic_of {H : Bytes → Str} {src : Src} {st : DState} {doc : JObj}
     (h : ∀ m, update H src st doc ≠ .panic m) (m : String) : updateG H src st doc ≠ .panic m := by
